@@ -21,7 +21,7 @@ ND = "naive::date::NaiveDate::"
 def run(chk, tier):
     P = Prog("default")
     chk.configs.add("default")
-    for r in (r_operators, r_offset_independent, r_iterators, r_absint):
+    for r in (r_operators, r_offset_independent, r_iterators, r_size_hint, r_absint):
         chk.guarded(r, P, tier)
     chk.assume("that the carry / 400-year-cycle arithmetic is numerically exact (b + (a - b) = a) is not decided")
     return {
@@ -96,6 +96,19 @@ def r_iterators(chk, P, tier):
                 days = [const_of(c[2][0]) for p in Sym(P, fn).paths() for c in p.calls if isinstance(c[1], str) and c[1].endswith("Days::new")]
                 ok = bool(days) and all(d == 7 for d in days)
             chk.expect(ok, it + "::" + m.split("::")[-1], "%s uses %s (expected %s; week step must be Days::new(7))" % (fn, sorted(cs), sorted(want)), loc=P.loc(fn))
+
+
+def r_size_hint(chk, P, tier):
+    chk.rule("STEP.size_hint", "the remaining-length unit of each date iterator matches its step: whole days for the day iterator, whole weeks (num_weeks, or num_days / 7) for the week iterator", floor=2)
+    for it, unit in (("NaiveDateDaysIterator", "num_days"), ("NaiveDateWeeksIterator", "num_weeks")):
+        fn = "<naive::date::%s as std::iter::Iterator>::size_hint" % it
+        cs = {c.split("::")[-1] for c in callees(P, fn) if c.startswith("time_delta::TimeDelta::num_")}
+        ok = cs == {unit}
+        if not ok and unit == "num_weeks" and cs == {"num_days"}:
+            # accepted idiom: num_days() / 7
+            from rules import consts_in_fn
+            ok = 7 in consts_in_fn(P, fn)
+        chk.expect(ok, it, "%s measures the remaining length with %s (expected %s)" % (fn, sorted(cs), unit), loc=P.loc(fn))
 
 
 def r_absint(chk, P, tier):
